@@ -1,6 +1,7 @@
 package postgres
 
 import (
+	"bytes"
 	"context"
 	"fmt"
 
@@ -29,12 +30,15 @@ func (pdb *pgDb) Dump(ctx context.Context, key []byte) (*db.Dumper, error) {
 	}
 	defer tx.Commit(ctx)
 
-	if rs.Next() {
+	for rs.Next() {
 		var kk []byte
 		var vv []byte
 		err = rs.Scan(&kk, &vv)
 		if err != nil {
 			return nil, err
+		}
+		if !bytes.HasPrefix(kk, k) {
+			continue
 		}
 		pdb.it = rs
 		pdb.itBase = k
@@ -51,21 +55,24 @@ func (pdb *pgDb) Dump(ctx context.Context, key []byte) (*db.Dumper, error) {
 func (pdb *pgDb) dumpFunc(ctx context.Context) ([]byte, []byte) {
 	var kk []byte
 	var vv []byte
-	if !pdb.it.Next() {
-		logg.DebugCtxf(ctx, "no more data in pg iterator")
-		pdb.it = nil
-		pdb.itBase = nil
-		return nil, nil
+	for pdb.it.Next() {
+		err := pdb.it.Scan(&kk, &vv)
+		if err != nil {
+			return nil, nil
+		}
+		if !bytes.HasPrefix(kk, pdb.itBase) {
+			continue
+		}
+		k, err := pdb.DecodeKey(ctx, kk)
+		if err != nil {
+			return nil, nil
+		}
+		return k, vv
 	}
-	err := pdb.it.Scan(&kk, &vv)
-	if err != nil {
-		return nil, nil
-	}
-	k, err := pdb.DecodeKey(ctx, kk)
-	if err != nil {
-		return nil, nil
-	}
-	return k, vv
+	logg.DebugCtxf(ctx, "no more data in pg iterator")
+	pdb.it = nil
+	pdb.itBase = nil
+	return nil, nil
 }
 
 func (pdb *pgDb) closeFunc() error {
